@@ -2,6 +2,7 @@ package main
 
 import (
 	"fmt"
+	"go/token"
 	"go/types"
 	"os"
 	"path/filepath"
@@ -461,6 +462,7 @@ func checkC18(c *Ctx) {
 		c.Check(sameStrings(v, cr) && sameStrings(cr, st) && len(v) >= 5, "enum-agreement", "strategies", "-", fmt.Sprintf("validator = createStrategy = SetStrategy = %v", v),
 			fmt.Sprintf("strategy tables differ: validator %v, createStrategy %v, SetStrategy %v", v, cr, st))
 	}
+	c.strategyKeyAgreement()
 	levels, formats := c.loggingTables()
 	parseLevel := c.switchStrings(p.Fn("internal/logging", "", "parseLevel"))
 	var unhandled []string
@@ -859,4 +861,69 @@ func reflectTag(tag, key string) string {
 		return rest[:j]
 	}
 	return ""
+}
+
+// strategyKeyAgreement: the spelling of the strategy name that validation looks up is the spelling
+// the balancer later dispatches on.  If validation normalises (lower-cases, trims) and the consumer
+// does not — or the other way round — a configuration is accepted and then silently runs the default
+// strategy.
+func (c *Ctx) strategyKeyAgreement() {
+	p := c.P
+	construct := "validateLoadBalancer-vs-createStrategy/key"
+	val := p.Fn("internal/config", "Config", "validateLoadBalancer")
+	cre := p.Fn("internal/loadbalancer", "", "createStrategy")
+	if val == nil || cre == nil {
+		c.Missing("enum-agreement", construct)
+		return
+	}
+	// validator side: the key of the lookup in the strategy table (the map whose literal holds the names)
+	var vKeys []string
+	instrsOf(val, func(in ssa.Instruction) {
+		if lk, ok := in.(*ssa.Lookup); ok {
+			if _, isMap := lk.X.Type().Underlying().(*types.Map); isMap {
+				vKeys = append(vKeys, p.Desc(lk.Index, nil))
+			}
+		}
+	})
+	// consumer side: the switch tag inside createStrategy, with its parameter replaced by what callers pass
+	var tags []string
+	instrsOf(cre, func(in ssa.Instruction) {
+		if b, ok := in.(*ssa.BinOp); ok && b.Op == token.EQL {
+			if _, isStr := constStr(b.Y); isStr {
+				tags = append(tags, p.Desc(b.X, nil))
+			}
+		}
+	})
+	tags = uniqueStrings(tags)
+	var args []string
+	for _, fn := range p.Funcs {
+		if !p.InScope(fn) {
+			continue
+		}
+		for _, ci := range callsIn(fn) {
+			if StaticFn(ci) == cre && len(ci.Common().Args) == 1 {
+				args = append(args, p.Desc(ci.Common().Args[0], nil))
+			}
+		}
+	}
+	args = uniqueStrings(args)
+	vKeys = uniqueStrings(vKeys)
+	if len(vKeys) != 1 || len(tags) != 1 || len(args) == 0 || len(cre.Params) != 1 {
+		c.Undecided("enum-agreement", construct, p.Pos(val.Pos()), fmt.Sprintf("cannot identify one lookup key / one switch tag (validator keys %v, createStrategy tags %v, call-site arguments %v)", vKeys, tags, args))
+		return
+	}
+	prm := "param:" + cre.Params[0].Name()
+	var bad []string
+	for _, a := range args {
+		consumed := strings.ReplaceAll(tags[0], prm, a)
+		// compare modulo the struct the field is read from (config.Config vs. a copy): field descriptors carry no base
+		if consumed != vKeys[0] {
+			bad = append(bad, fmt.Sprintf("validation looks the strategy up as %s but the balancer dispatches on %s: a spelling only one of them normalises is accepted and then runs the default strategy", vKeys[0], consumed))
+		}
+	}
+	if len(bad) == 0 {
+		c.Pass("enum-agreement", construct, p.Pos(val.Pos()), "validated and dispatched on the same expression: "+vKeys[0])
+	} else {
+		c.Fail("enum-agreement", construct, p.Pos(val.Pos()), bad[0], bad...)
+	}
 }
